@@ -69,8 +69,12 @@ func c03UniqSeq(id int) *obiseq.BioSequence {
 
 // c03Uniq pushes the stream (empty batches included) through the real obiuniq chain
 // (Distribute -> chunks -> sub-chunks -> IMergeSequenceBatch) and counts the reads per distinct sequence.
-func c03Uniq(bs []c03Batch, fail func(sig, format string, a ...any)) string {
-	it, err := obichunk.IUniqueSequence(c03IterWith(bs, c03UniqSeq))
+func c03Uniq(bs []c03Batch, fail func(sig, format string, a ...any), onDisk ...bool) string {
+	var opts []obichunk.WithOption
+	if len(onDisk) > 0 && onDisk[0] {
+		opts = append(opts, obichunk.OptionSortOnDisk())
+	}
+	it, err := obichunk.IUniqueSequence(c03IterWith(bs, c03UniqSeq), opts...)
 	if err != nil {
 		return "err"
 	}
